@@ -118,6 +118,46 @@ def topology_family(tier):
                 yield f"topology::k{k}::edges{mask:x}::{'-'.join(vec)}", c
 
 
+def dense_family(tier):
+    """Dense overlapping cycles: 6 monotone gates (stable states always exist), 11-14 edges chosen by a deterministic linear
+    congruential generator, one input feeding a gate - where the feedback-edge heuristic has many backward edges to sort out."""
+    state = [987654321]
+
+    def rnd(n):
+        state[0] = (state[0] * 1103515245 + 12345) & 0x7FFFFFFF
+        return (state[0] >> 8) % n
+
+    # six gates with overlapping cycles g5->g1->g0->g5, g1->g3->g6->g1, ... (the counterexample of seeded change C18_i, kept as a
+    # regression model: one cycle there holds two backward edges of the heuristic's ordering)
+    ov_edges = [("g0", "g3"), ("g0", "g4"), ("g0", "g5"), ("g1", "g0"), ("g1", "g3"), ("g3", "g6"), ("g4", "g6"), ("g5", "g1"), ("g5", "g3"), ("g5", "g4"), ("g5", "g6"), ("g6", "g1"), ("a", "g5")]
+    ov_names = ["g0", "g1", "g3", "g4", "g5", "g6"]
+    for oi, order in enumerate((["a"] + ov_names, ov_names[::-1] + ["a"], ["g5", "a", "g1", "g6", "g0", "g3", "g4"])):
+        yield f"dense::overlapping-cycles::order{oi}", ordered(order, {**{n: "or" for n in ov_names}, "a": "input"}, ov_edges if oi != 1 else ov_edges[::-1], ["g6", "g3"])
+    count = 60 if tier == "quick" else 600
+    made = 0
+    while made < count:
+        k = 6
+        names = [f"g{i}" for i in range(k)]
+        pairs = [(u, v) for u in names for v in names if u != v]
+        want = 11 + rnd(4)
+        edges = []
+        while len(edges) < want:
+            e = pairs[rnd(len(pairs))]
+            if e not in edges:
+                edges.append(e)
+        types = {n: ("or" if rnd(2) else "and") for n in names}
+        types["a"] = "input"
+        edges.append(("a", names[rnd(k)]))
+        # every gate needs a fan-in
+        for n in names:
+            if not any(v == n for u, v in edges):
+                edges.append(("a", n))
+        c = ordered(["a"] + names, types, edges, [names[rnd(k)], names[rnd(k)]])
+        if c.is_cyclic():
+            made += 1
+            yield f"dense::{made}", c
+
+
 def ordered(order, types, edges, outputs):
     """Model circuit with a prescribed node / edge insertion order (the feedback-set heuristic depends on it)."""
     c = RefCircuit(name="m")
@@ -236,9 +276,14 @@ def run(chk):
     # ---- S: template evaluation ----------------------------------------
     P = Package(repo)
     n = 0
-    for name, c in itertools.chain(cyclic_models(), topology_family(chk.tier)):
+    from ..pkgenv import FullStackCaller
+
+    FS = FullStackCaller(repo)
+    runs = [(nm, cc, P) for nm, cc in itertools.chain(cyclic_models(), topology_family(chk.tier), dense_family(chk.tier))]
+    runs += [(f"{nm}@full-stack", cc, FS) for nm, cc in list(cyclic_models()) + list(topology_family(chk.tier))[::25]]
+    for name, c, caller in runs:
         snap = c._snapshot()
-        r = P.call(FILE, "acyclic_unroll", c)
+        r = caller.call(FILE, "acyclic_unroll", c)
         n += 1
         key = f"acyclic_unroll::{name}"
         if r[0] != "return":
